@@ -293,7 +293,7 @@ def r7_creation(chk, classes):
             continue
         init = ifexp_assignments(init0)
         env = Env(init.node)
-        calls = [c for c in ast.walk(init.node) if isinstance(c, ast.Call) and (call_name(c) or "").split(".")[-1] == "UKVFile"]
+        calls = [c for c in ast.walk(init.node) if isinstance(c, ast.Call) and (call_name(c) or "").split(".")[-1] in ("UKVFile", "ZipFile", "TarFile")]
         if not calls:
             continue
         chk.analysed(init0)
@@ -336,7 +336,7 @@ def r7_creation(chk, classes):
                                     "have created and filled the file, and this one initialises it again (records of completed sessions are lost)")
                 if mv == "w" and not asked:
                     problems.append("the truncating mode \"w\" is reached without the caller having asked for overwrite: an existing library is emptied")
-                chk.decide(not problems, "C04.R7", key, init0.where(c), f"UKVFile(mode={mv!r}) under the write lock, existence tested inside it" + (", only on overwrite" if mv == "w" else ""),
+                chk.decide(not problems, "C04.R7", key, init0.where(c), f"{(call_name(c) or '').split('.')[-1]}(mode={mv!r}) under the write lock, existence tested inside it" + (", only on overwrite" if mv == "w" else ""),
                            "; ".join(problems))
     chk.require(n >= 1, "no backend constructor creates its file - unknown idiom")
 
